@@ -191,6 +191,13 @@ class Interp:
                 raise AnalysisError(f"binop failed: {exc}") from exc
         if isinstance(op, ast.Add) and isinstance(left, (list, tuple)) and isinstance(right, type(left)):
             return left + right
+        if isinstance(left, (set, frozenset)) and isinstance(right, (set, frozenset)):
+            if isinstance(op, ast.Sub):
+                return {x for x in left if not any(x is y or x == y for y in right)}
+            if isinstance(op, ast.BitOr):
+                return set(left) | set(right)
+            if isinstance(op, ast.BitAnd):
+                return {x for x in left if any(x is y or x == y for y in right)}
         return Sym(_BINSYM.get(type(op), type(op).__name__), left, right)
 
     def unaryop(self, op, v, node):
@@ -558,6 +565,11 @@ class Interp:
             ent = self.repo.resolve_symbol(base.name, attr)
             if isinstance(ent, Func):
                 return Closure(ent)
+            if isinstance(ent, ast.AST):
+                try:
+                    return self.eval(ent, {}, None)
+                except AnalysisError:
+                    return Sym("ext", attr)
             if ent is not None:
                 return ent
         return self.get_attr(base, attr, node, mod)
